@@ -498,7 +498,9 @@ def r5_copy_for_every_page(ctx, rep):
         own_ok = owners == {node_var}
         # element type: a bare `name in <list of Path>` compares str with Path and is never true
         is_in = isinstance(c, ast.Compare) and isinstance(c.ops[0], (ast.In, ast.NotIn))
-        typed_ok = not (is_in and isinstance(c.left, ast.Name) and "Path" in ftype)
+        # (`name in map(str, xs)` / `name in [str(x) for x in xs]` compare strings with strings)
+        bare = is_in and isinstance(c.comparators[0], ast.Attribute) and c.comparators[0].attr == "copy_subdir"
+        typed_ok = not (bare and isinstance(c.left, ast.Name) and "Path" in ftype)
         ok = own_ok and typed_ok
         rep.ob("copied sub-directories are not rendered as pages", ok,
                f"skipped by the copy_subdir of `{node_var}`, compared as names" if ok else
